@@ -1,4 +1,4 @@
-import SqlgrepModel.Model.Float
+
 /-
 `f64::from_str` (Rust `core::num::dec2flt`) computed in Lean: the grammar (`parseF64`) and the correctly
 rounded (round-half-to-even) conversion of a decimal number `±mant · 10^exp10` to the IEEE-754 binary64 bit
